@@ -372,7 +372,7 @@ def mofunCliTrace (find_path : Option String) (replace_path : Option String) (du
     []) ++
   (if (Option.isSome mic) then
     (if cell_is_orthorhombic then
-      ["l4 = np.array(np.ceil(2 * mic / np.diag(atoms.cell)), dtype=int)",
+      ["l4 = np.maximum(1, np.array(np.ceil(2 * mic / np.diag(atoms.cell)), dtype=int))",
        "atoms = atoms.replicate(l4)"]
     else
       ["print('WARNING: Minimimum image convention is only implemented for orthorhombic structures, please use --replicate')"])
